@@ -3,6 +3,8 @@
 package vsync
 
 import (
+	"fmt"
+	"sort"
 	orig "sync"
 	"unsafe"
 
@@ -178,6 +180,10 @@ func (m *Map) Range(f func(k, v interface{}) bool) {
 	type kv struct{ k, v interface{} }
 	var all []kv
 	m.m.Range(func(k, v interface{}) bool { all = append(all, kv{k, v}); return true })
+	if vrt.Active() && len(all) > 1 {
+		// sync.Map iterates in random order: make it canonical
+		sort.Slice(all, func(i, j int) bool { return fmt.Sprint(all[i].k) < fmt.Sprint(all[j].k) })
+	}
 	for _, e := range all {
 		if !f(e.k, e.v) {
 			return
